@@ -450,6 +450,151 @@ func runHintPair(c *core.Ctx) {
 			disarm = true
 		}
 	}
+	// nilLeaf: leaf expression e having truth value val means "field recv == nil" (wantNil) resp. "!= nil"
+	nilLeaf := func(inf *types.Info, wantNil bool) func(ast.Expr, bool) bool {
+		return func(ex ast.Expr, val bool) bool {
+			be, ok := ex.(*ast.BinaryExpr)
+			if !ok || (be.Op != token.EQL && be.Op != token.NEQ) {
+				return false
+			}
+			if !((an.SelectedField(inf, be.X) == recv && isNilIdent(inf, be.Y)) || (an.SelectedField(inf, be.Y) == recv && isNilIdent(inf, be.X))) {
+				return false
+			}
+			isNil := (be.Op == token.EQL) == val
+			return isNil == wantNil
+		}
+	}
+	// oldValueHint: deposits its argument through the armed receiver and disarms it, only when a receiver is armed
+	if hf := mustMethod(c, e, an.PkgDistsys, "ArchetypeInterface", "oldValueHint"); hf != nil {
+		hg := e.Graph(hf)
+		hi := hf.Pkg.Info
+		var param types.Object
+		if ps := hf.Decl.Type.Params.List; len(ps) == 1 && len(ps[0].Names) == 1 {
+			param = hi.Defs[ps[0].Names[0]]
+		}
+		deposited, disarmed := false, false
+		for _, st := range hg.FindAtoms(func(a ast.Node) bool {
+			as, ok := a.(*ast.AssignStmt)
+			if !ok || len(as.Lhs) != 1 || len(as.Rhs) != 1 {
+				return false
+			}
+			star, ok := an.Unparen(as.Lhs[0]).(*ast.StarExpr)
+			return ok && an.SelectedField(hi, star.X) == recv && an.ObjOf(hi, as.Rhs[0]) == param
+		}) {
+			for _, blk := range hg.CFG.Blocks {
+				cd, _ := hg.Cond(blk)
+				if cd == nil {
+					continue
+				}
+				for _, branch := range []bool{true, false} {
+					if an.Implies(cd, branch, nilLeaf(hi, false)) && hg.GuardedBy(st, cd, branch) {
+						deposited = true
+						for _, d := range hg.FindAtoms(func(a ast.Node) bool {
+							rhs, ok := fieldIsAssigned(hi, a, recv)
+							return ok && isNilIdent(hi, rhs)
+						}) {
+							if hg.Dominates(st, d) && hg.GuardedBy(d, cd, branch) {
+								disarmed = true
+							}
+						}
+					}
+				}
+			}
+		}
+		c.Check(deposited, "oldValueHint:deposits-through-armed-receiver", hf.Pos(), "the hint is stored through the receiver, on the branch where one is armed",
+			"oldValueHint does not store its argument through oldValueHintReceiver on the branch where the receiver is non-nil: old values are never logged, or a nil pointer is written through")
+		c.Check(disarmed, "oldValueHint:disarms-after-deposit", hf.Pos(), "the receiver is set to nil after the deposit",
+			"oldValueHint does not disarm the receiver after depositing: Write cannot tell that a hint was given")
+	}
+	// Write: the hint handed to the recorder is &oldValue exactly when the receiver was consumed (is nil after WriteValue)
+	if len(arms) == 1 && len(ops) == 1 {
+		var slot types.Object
+		if as, ok := arms[0].(*ast.AssignStmt); ok && len(as.Rhs) == 1 {
+			if u, ok := an.Unparen(as.Rhs[0]).(*ast.UnaryExpr); ok && u.Op == token.AND {
+				slot = an.ObjOf(info, u.X)
+			}
+		}
+		recs := g.FindAtoms(func(a ast.Node) bool {
+			call, ok := a.(*ast.CallExpr)
+			return ok && an.IsMethodNamed(an.CalleeFunc(info, call), an.PkgTrace, "EventState", "RecordWrite")
+		})
+		if slot == nil || len(recs) == 0 {
+			c.Lost("Write:hint-extraction", "armed slot (&oldValue) or RecordWrite call not found")
+		}
+		for i, rc := range recs {
+			key := fmt.Sprintf("Write:hint-passed-iff-consumed#%d", i+1)
+			call := rc.(*ast.CallExpr)
+			var hintVar types.Object
+			for _, a := range call.Args {
+				if p, ok := info.TypeOf(a).(*types.Pointer); ok {
+					if n := an.NamedOf(p.Elem()); n != nil && n.Obj().Name() == "Value" {
+						hintVar = an.ObjOf(info, a)
+					}
+				}
+			}
+			if hintVar == nil {
+				c.Bad(key, rc.Pos(), "RecordWrite is not given a *tla.Value hint variable")
+				continue
+			}
+			okHint := false
+			for _, as := range g.FindAtoms(func(a ast.Node) bool {
+				x, ok := a.(*ast.AssignStmt)
+				if !ok || len(x.Lhs) != 1 || len(x.Rhs) != 1 || an.ObjOf(info, x.Lhs[0]) != hintVar {
+					return false
+				}
+				u, ok := an.Unparen(x.Rhs[0]).(*ast.UnaryExpr)
+				return ok && u.Op == token.AND && an.ObjOf(info, u.X) == slot
+			}) {
+				if !g.Dominates(ops[0], as) {
+					continue
+				}
+				for _, blk := range g.CFG.Blocks {
+					cd, _ := g.Cond(blk)
+					if cd == nil || !g.Dominates(ops[0], cd) {
+						continue
+					}
+					for _, branch := range []bool{true, false} {
+						if !g.GuardedBy(as, cd, branch) {
+							continue
+						}
+						// directly a test of the receiver field ...
+						if an.Implies(cd, branch, nilLeaf(info, true)) {
+							okHint = true
+						}
+						// ... or of a bool computed from it after WriteValue
+						if an.Implies(cd, branch, func(ex ast.Expr, val bool) bool {
+							b := an.ObjOf(info, ex)
+							if b == nil || !val {
+								return false
+							}
+							for _, d := range g.FindAtoms(func(a ast.Node) bool {
+								x, ok := a.(*ast.AssignStmt)
+								return ok && len(x.Lhs) == 1 && len(x.Rhs) == 1 && an.ObjOf(info, x.Lhs[0]) == b
+							}) {
+								if g.Dominates(ops[0], d) && an.Implies(d.(*ast.AssignStmt).Rhs[0], true, nilLeaf(info, true)) {
+									return true
+								}
+							}
+							return false
+						}) {
+							okHint = true
+						}
+					}
+				}
+			}
+			// and nothing else assigns a non-nil hint
+			others := g.FindAtoms(func(a ast.Node) bool {
+				x, ok := a.(*ast.AssignStmt)
+				if !ok || len(x.Lhs) != 1 || len(x.Rhs) != 1 || an.ObjOf(info, x.Lhs[0]) != hintVar || isNilIdent(info, x.Rhs[0]) {
+					return false
+				}
+				u, ok := an.Unparen(x.Rhs[0]).(*ast.UnaryExpr)
+				return !(ok && u.Op == token.AND && an.ObjOf(info, u.X) == slot)
+			})
+			c.Check(okHint && len(others) == 0, key, rc.Pos(), "the recorder gets &oldValue exactly on the branch where the receiver was consumed by the resource",
+				"the previous-value hint given to RecordWrite is not `&oldValue iff the receiver is nil after WriteValue`: writes are logged with a zero old value although none was hinted, or hints given by the resource are dropped")
+		}
+	}
 	c.Check(disarm, "Write:hint-disarmed-on-every-exit", fn.Pos(), "a defer registered before WriteValue sets the receiver to nil", "the hint receiver can stay armed after Write returns (e.g. on an error return): a later write to another variable would deposit its old value into a dead stack slot")
 }
 
